@@ -16,7 +16,7 @@ Two configurations are threaded through: `cm` is the configuration the marshalli
 with (at parse time), `cc` the generator's configuration at generate time. They coincide unless
 another configured context of the same `API` object parsed in between (C10).
 -/
-namespace Pydjinni.Gen
+namespace Pydjinni.GenC
 
 structure Path where
   abs : Bool
@@ -233,4 +233,4 @@ def cleanComp (s : String) : Bool := s != "" && s != "." && s != ".." && !s.toLi
 
 def Path.clean (p : Path) : Bool := !p.abs && p.parts.all cleanComp
 
-end Pydjinni.Gen
+end Pydjinni.GenC
